@@ -2,7 +2,10 @@
 module_ir.py, with exactly the error codes error_examples defines."""
 from __future__ import annotations
 
+import ast
+
 from .. import grammar as G
+from ..pyfacts import walk_no_nested_funcs
 from ..lr1ref import LR1, compare_tables
 from ..report import AnalysisError, RuleResult
 from .. import toksim
@@ -156,6 +159,112 @@ def error_codes(repo, cp=None):
     res.detail = {"examples": len(examples), "error_cells": len(have_cells), "default_errors": len(defe)}
     res.samples = [{"message": examples[0][0], "example": examples[0][1][:80]}] if examples else []
     res.analysed = [ERROR_EXAMPLES, G.CACHED, G.TOKENIZER]
+    return res
+
+
+MAKE_PARSER = "compiler/front_end/make_parser.py"
+
+
+def _fold_str(node):
+    """Constant value of a string expression built from literals with + and * (else None)."""
+    if isinstance(node, ast.Constant) and isinstance(node.value, (str, int)):
+        return node.value
+    if isinstance(node, ast.BinOp) and isinstance(node.op, (ast.Add, ast.Mult)):
+        l, r = _fold_str(node.left), _fold_str(node.right)
+        if l is None or r is None:
+            return None
+        try:
+            return l + r if isinstance(node.op, ast.Add) else l * r
+        except TypeError:
+            return None
+    return None
+
+
+def examplefile(repo):
+    """R-ERRCODES reads error_examples with the checker's own reader (toksim.parse_error_examples).  This rule ties
+    that reader to the generator's: same three separators, same $ERR/$ANY markers, and the message stored with
+    each example is the text of the file with only surrounding whitespace removed (no interior rewriting) —
+    otherwise a freshly generated parser carries different messages than the shipped tables."""
+    res = RuleResult("R-EXAMPLEFILE")
+    m = repo.mod(MAKE_PARSER)
+    f = None
+    for g in m.top_funcs():
+        if any(isinstance(n, ast.Constant) and n.value == "$ERR" for n in ast.walk(g.node)):
+            f = g
+    if f is None:
+        raise AnalysisError("make_parser: the error-example reader (function mentioning $ERR) was not found")
+    seps = set()
+    for n in walk_no_nested_funcs(f.node):
+        if isinstance(n, ast.Call) and isinstance(n.func, ast.Attribute) and n.func.attr == "split" and n.args:
+            v = _fold_str(n.args[0])
+            if isinstance(v, str):
+                seps.add(v)
+    want = {"\n" + "=" * 80 + "\n", "\n" + "-" * 80 + "\n", "\n---\n"}
+    res.instances += 3
+    if seps != want:
+        res.add(f"{MAKE_PARSER}|{f.name}|separators", f"{f.name} splits the example file on {sorted(seps)!r}; the file format (and "
+                "the checker's reader) uses 80 '=', 80 '-' and '---' lines", MAKE_PARSER, f.line, f.name)
+    markers = {n.value for n in ast.walk(f.node) if isinstance(n, ast.Constant) and isinstance(n.value, str) and n.value.startswith("$")
+               and n.value[1:].isupper()}
+    res.instances += 1
+    if markers != {"$ERR", "$ANY"}:
+        res.add(f"{MAKE_PARSER}|{f.name}|markers", f"marker set is {sorted(markers)}", MAKE_PARSER, f.line, f.name)
+    # message flow into the result tuples
+    tuples = []
+    for n in walk_no_nested_funcs(f.node):
+        if isinstance(n, ast.Call) and isinstance(n.func, ast.Attribute) and n.func.attr == "append" and n.args \
+                and isinstance(n.args[0], ast.Tuple) and len(n.args[0].elts) == 4:
+            tuples.append(n)
+    if not tuples:
+        raise AnalysisError("make_parser: result.append((tokens, error_token, message, example)) not found")
+
+    def origin(node, steps, depth=0):
+        """Follows a value back to the unpacking of the message/example split; records every transformation."""
+        if depth > 8:
+            return None
+        if isinstance(node, ast.Call) and isinstance(node.func, ast.Attribute) and not isinstance(node.func.value, ast.Constant):
+            steps.append((node.func.attr, [ast.unparse(a) for a in node.args], node.lineno))
+            return origin(node.func.value, steps, depth + 1)
+        if isinstance(node, ast.Call) and isinstance(node.func, ast.Attribute) and isinstance(node.func.value, ast.Constant):
+            # "sep".join(x) and the like
+            steps.append((f"{node.func.value.value!r}.{node.func.attr}", [ast.unparse(a) for a in node.args], node.lineno))
+            return origin(node.args[0], steps, depth + 1) if node.args else None
+        if isinstance(node, ast.Name):
+            defs = [n for n in walk_no_nested_funcs(f.node) if isinstance(n, ast.Assign)
+                    and any(node.id in {x.id for x in ast.walk(t) if isinstance(x, ast.Name)} for t in n.targets)]
+            plain = [d for d in defs if any(isinstance(t, ast.Name) and t.id == node.id for t in d.targets)]
+            unpack = [d for d in defs if d not in plain]
+            if len(unpack) == 1 and not plain:
+                return ("unpack", unpack[0])
+            if len(unpack) == 1 and plain:
+                # re-assigned after unpacking: every re-assignment is a transformation of the previous value
+                for d in plain:
+                    origin(d.value, steps, depth + 1)
+                return ("unpack", unpack[0])
+            if len(plain) == 1 and not unpack:
+                return origin(plain[0].value, steps, depth + 1)
+            return None
+        return None
+
+    for t in tuples:
+        res.instances += 1
+        steps = []
+        o = origin(t.args[0].elts[2], steps)
+        bad = [s_ for s_ in steps if not (s_[0] in ("strip",) and not s_[1])]
+        if o is None:
+            res.add(f"{MAKE_PARSER}|{f.name}|message-origin", "the message stored with an example does not come from the "
+                    "message section of the example file", MAKE_PARSER, t.lineno, f.name)
+        elif bad:
+            desc = ", ".join(f"{a}({', '.join(b)})" for a, b, _ in bad)
+            res.add(f"{MAKE_PARSER}|{f.name}|message-rewritten", f"{f.name} rewrites the error message on its way from the example "
+                    f"file into the parser tables ({desc}); the shipped tables hold the message as written in the file "
+                    "(R-ERRCODES), so a freshly generated parser reports different text", MAKE_PARSER, bad[0][2], f.name)
+        elif not any(s_[0] == "strip" for s_ in steps):
+            res.add(f"{MAKE_PARSER}|{f.name}|message-unstripped", "the message is stored without removing surrounding whitespace",
+                    MAKE_PARSER, t.lineno, f.name)
+        else:
+            res.samples.append(f"{f.name}: message <- strip() of the message section")
+    res.analysed = [MAKE_PARSER, "sa/toksim.py (the checker's reader)"]
     return res
 
 
